@@ -32,6 +32,8 @@ func jbool(m J, k string) bool {
 
 func jint(m J, k string) int {
 	switch v := m[k].(type) {
+	case int:
+		return v
 	case float64:
 		return int(v)
 	case json.Number:
